@@ -60,7 +60,11 @@ def run_case(case):
             try:
                 with target.quiet():
                     chk = target.recheck.Checker(mf, content)
+                    it = chk.iter_hashes()
+                    peek = [next(it, None) for _ in range(2)]      # a front end that looks at the first results and gives up
+                    del it
                     stream = [(bytes(a) == bytes(b), size) for a, b, _, size in chk.iter_hashes()]
+                    again = chk.results()                          # the same object asked once more
             except Exception as e:  # noqa: BLE001
                 exc = e
     ver = classes[0]
@@ -79,6 +83,8 @@ def run_case(case):
         direction = "too-high" if pct > ref.percent else "too-low"
         return Outcome(Violation("C16:%s:pct-%s" % (tag, direction), "recheck reports %r, exact share of bytes in verifying pieces is %r (%d of %d pieces verify)" % (
             pct, ref.percent, sum(verdicts), len(verdicts))), True, classes)
+    if exc is None and abs(again - ref.percent) > 1e-9:
+        return Outcome(Violation("C16:%s:reused-checker" % tag, "a Checker object asked a second time reports %r, the exact share is %r" % (again, ref.percent)), True, classes)
     want = sorted((ok, size) for ok, size, _ in ref.pieces)
     if sorted(stream) != want:
         return Outcome(Violation("C16:%s:verdict-stream" % tag, "iter_hashes() verdict/size stream differs from the reference although the percentage agrees"), True, classes)
